@@ -377,6 +377,7 @@ func streamPanic(c *Ctx) {
 	sharedOptionRecoverProbe(c)
 	invalidUTF8PanicProbe(c)
 	recoveredErrorExactProbe(c)
+	recoveredErrorAwkwardProbe(c)
 	sharedRecoveryErrorProbe(c)
 	recoveryAfterDeadlineProbe(c)
 	// clean call followed by a panicking call on the same handler (state must not leak)
@@ -554,6 +555,67 @@ func recoveredErrorExactProbe(c *Ctx) {
 				if want := `code=data_loss message="panic: " own-shared-value=true recover-only=["r1"]`; got != want {
 					c.Fail("recover-error-exact", desc, got, "the client receives the error the recovery function returned: "+want)
 				}
+			}
+		}
+	}
+}
+
+// recoveredErrorAwkwardProbe: the error the recovery function returned reaches the client also
+// when it is awkward to carry: a message far longer than the client's read limit on a unary call
+// (the limit is about messages; an error is not one), and metadata with a line break in a value
+// after a message was already sent (gRPC-Web writes its trailers as an HTTP/1 header block: the
+// value is made safe, the error is not lost) - round 11, C19-mo, C19-mp.
+func recoveredErrorAwkwardProbe(c *Ctx) {
+	long := strings.Repeat("goroutine 1 [running]: main.handler(...) ", 120)
+	for _, proto := range []string{"connect", "grpc", "grpcweb"} {
+		for _, variant := range []string{"unary call, client read limit 1000, recovered error with a 5 KB message", "server stream that panics after one message, recovered error with a line break in a metadata value"} {
+			unary := strings.HasPrefix(variant, "unary")
+			f := func(_ context.Context, _ connect.Spec, _ http.Header, v any) error {
+				if unary {
+					return connect.NewError(connect.CodeFailedPrecondition, errors.New(long))
+				}
+				e := connect.NewError(connect.CodeFailedPrecondition, errors.New("recovered"))
+				e.Meta().Set("X-Stack", "line one\nline two\r\nline three")
+				e.Meta().Set("X-Plain", "p")
+				return e
+			}
+			opts := []connect.HandlerOption{connect.WithCodec(rawCodec{"raw"}), connect.WithRecover(f)}
+			var h http.Handler
+			kind := "server"
+			if unary {
+				kind = "unary"
+				h = connect.NewUnaryHandler("/s/m", func(ctx context.Context, r *connect.Request[[]byte]) (*connect.Response[[]byte], error) {
+					panic("boom")
+				}, opts...)
+			} else {
+				h = connect.NewServerStreamHandler("/s/m", func(ctx context.Context, r *connect.Request[[]byte], s *connect.ServerStream[[]byte]) error {
+					_ = s.Send(&[]byte{1})
+					panic("boom")
+				}, opts...)
+			}
+			desc := proto + " " + variant
+			c.Count("recovered-error-awkward")
+			got := safely(func() string {
+				var extra []connect.ClientOption
+				if unary {
+					extra = append(extra, connect.WithReadMaxBytes(1000))
+				}
+				v := callClient(proto, kind, &inprocClient{h: h}, nil, [][]byte{{1}}, extra...)
+				var ce *connect.Error
+				if !errors.As(v.err, &ce) {
+					return fmt.Sprintf("no coded error: %v", v.err)
+				}
+				if unary {
+					return fmt.Sprintf("code=%s message-intact=%v", ce.Code(), ce.Message() == long)
+				}
+				return fmt.Sprintf("code=%s message=%q plain=%q", ce.Code(), ce.Message(), ce.Meta().Get("X-Plain"))
+			})
+			want := `code=failed_precondition message="recovered" plain="p"`
+			if unary {
+				want = "code=failed_precondition message-intact=true"
+			}
+			if got != want {
+				c.Fail("recover-error-exact", desc, got, "the client receives the error the recovery function returned: "+want)
 			}
 		}
 	}
